@@ -1509,6 +1509,8 @@ trait RecordD {
     {
         if i <= 0 { p } else { fa_bnd(f, fa_start(f, p, i - 1)) }
     }
+    /// the record starting at p does not fit into a buffer of cap bytes (no record boundary within its first cap - 1 bytes)
+    pub open spec fn fa_nofit(f: Seq<u8>, p: int, cap: int) -> bool { no_bnd(f, p, p + cap - 1) }
     /// the line-end offsets of the record starting at p, as the format rules define them
     pub open spec fn fa_lines(f: Seq<u8>, p: int) -> Seq<int> {
         let q = fa_bnd(f, p);
@@ -1725,6 +1727,9 @@ trait RecordD {
                             s0 < old(self).f().len() && old(self).f()[s0] != 62u8 && found == old(self).f()[s0] && line == true_line(old(self).f(), s0) })),
             [C14|fasta.read_set.source_errors_are_not_swallowed] (r is None || r matches Some(Ok(_))) ==> final(self).buf_reader.errs() == old(self).buf_reader.errs(),
             [C09|fasta.read_set.capacity_monotone] final(self).buf_reader.cap() >= old(self).buf_reader.cap(),
+            [C09|fasta.read_set.plain_sets_grow_only_when_a_record_does_not_fit] n_records is None && old(self).clean()
+                && final(self).buf_reader.cap() > old(self).buf_reader.cap() ==>
+                exists|j: int| 0 <= j && #[trigger] fa_nofit(old(self).f(), fa_start(old(self).f(), old(self).cursor(), j), old(self).buf_reader.cap() as int),
 //@body_start
         proof {
             lemma_count_lf_mono(self.f(), 0, self.position.byte as int);
@@ -1739,7 +1744,8 @@ trait RecordD {
                 lemma_lines_complete(ff, a + st, shl(spv(self.buf_pos.seq_pos@), a), a + e);
             }
         }
-//@at depth=1 kw=let nth=0 expect="let mut \w+ = true;"
+//@at depth=1 kw=let nth=0 expect="let mut \w+ = \w+;"
+        let ghost mut grow_at: int = -1;
         proof {
             lemma_ps_empty(rset.positions@, self.b(), self.base(), self.f(), old(self).cursor(), self.state == State::Finished);
             if self.state == State::Positioned {
@@ -1759,7 +1765,9 @@ trait RecordD {
                 [C03,C04,C06|fasta.read_set.inv.positions_valid] self.rs_b(rset),
                 [C03,C04|fasta.read_set.inv.records_are_the_next_k] self.rs_c(old(self), rset),
                 n_records != Some(0usize), old(self).state != State::Finished,
-                [C09|fasta.read_set.inv.capacity] self.buf_reader.cap() >= old(self).buf_reader.cap(),
+                [C09|fasta.read_set.inv.capacity] self.buf_reader.cap() >= old(self).buf_reader.cap() && (n_records is None ==> is_new)
+                    && (n_records is None && old(self).clean() && self.buf_reader.cap() > old(self).buf_reader.cap() ==>
+                        0 <= grow_at && fa_nofit(old(self).f(), fa_start(old(self).f(), old(self).cursor(), grow_at), old(self).buf_reader.cap() as int)),
             ensures
                 [C03,C04|fasta.read_set.loop_exit_nonempty] rset.n() >= 1,
                 [C03,C04|fasta.read_set.loop_exit_exact_or_end] n_records matches Some(m) ==> rset.n() == m || self.state == State::Finished,
@@ -1770,7 +1778,18 @@ trait RecordD {
             let ghost b0 = self.b();
             let ghost k0 = rset.n();
             let ghost ps0 = rset.positions@;
+            let ghost cap_before = self.buf_reader.cap();
             proof { lemma_count_lf_mono(self.f(), 0, self.position.byte as int); }
+//@after /Err\(e\) => \{/ nth=0
+                        proof { if self.buf_reader.cap() > cap_before && n_records is None && old(self).clean() {
+                                grow_at = k0;
+                                assert(fa_nofit(old(self).f(), fa_start(old(self).f(), old(self).cursor(), k0), old(self).buf_reader.cap() as int));
+                            } }
+//@at depth=3 kw=if nth=1 expect="if !\w+ \{"
+                proof { if self.buf_reader.cap() > cap_before && n_records is None && old(self).clean() {
+                        grow_at = k0;
+                        assert(fa_nofit(old(self).f(), fa_start(old(self).f(), old(self).cursor(), k0), old(self).buf_reader.cap() as int));
+                    } }
 //@at depth=2 kw=if nth=1 expect="if let Some\(\w+\) = rset\.positions\.get_mut\("
             let ghost open = self.state == State::Finished;
             proof {
